@@ -87,19 +87,25 @@ Definition has_float_char (t : list N) : bool :=
 
 (* the token kind / value of a number token, None = the lexer returns _ERROR *)
 Definition classify_number (t : list N) : option tok :=
-  match t with
-  | 48 :: x :: ds =>
-    if (x =? 120) || (x =? 88) then
-      if Nat.ltb 0 (length ds) && forallb is_hexdigit ds && (digits_val 16 ds <? two64)
-      then Some (TInt (digits_val 16 ds)) else None
-    else if has_float_char t then (if float_syntax_ok t then Some TFloat else None)
-    else if forallb is_octdigit t && (digits_val 8 t <? two64) then Some (TInt (digits_val 8 t)) else None
-  | 48 :: [] => Some (TInt 0)
-  | _ =>
+  let decimal :=
     if has_float_char t then (if float_syntax_ok t then Some TFloat else None)
     else if forallb is_digit t then
       (if digits_val 10 t <? two64 then Some (TInt (digits_val 10 t)) else Some TFloat)
-    else None
+    else None in
+  match t with
+  | [] => decimal
+  | c0 :: r =>
+    if c0 =? 48 then
+      match r with
+      | [] => Some (TInt 0)
+      | x :: ds =>
+        if (x =? 120) || (x =? 88) then
+          if Nat.ltb 0 (length ds) && forallb is_hexdigit ds && (digits_val 16 ds <? two64)
+          then Some (TInt (digits_val 16 ds)) else None
+        else if has_float_char t then (if float_syntax_ok t then Some TFloat else None)
+        else if forallb is_octdigit t && (digits_val 8 t <? two64) then Some (TInt (digits_val 8 t)) else None
+      end
+    else decimal
   end.
 
 (* ---- string literals ---- *)
